@@ -189,6 +189,128 @@ def check_windowed(repo, rep):
         rep.instance(rid, "mfi|value|{'period': 3}", {"definition": "100 - 100/(1 + sum(pos flow)/sum(neg flow)), flows split by strict tp comparison"})
     except Undecided as e:
         rep.undecided_item(f"mfi: {e}")
+    # commodity channel index
+    try:
+        p3 = 3
+        out = run_ind(repo, "cci", period=p3)
+        g = elems(out["value"], {})
+        for i in range(p3 - 1, N):
+            sma_ = sum((tp(i - j) for j in range(p3)), R.const(0)) / R.const(p3)
+            md = sum((abs_of(tp(i - j) - sma_) for j in range(p3)), R.const(0)) / R.const(p3)
+            want = (tp(i) - sma_) / (R.const("0.015") * md)
+            if not eq(g[i], want):
+                rep.violation(rid, "cci|value", f"cci(period=3) element {i}: {str(g[i])[:200]} differs from (tp - sma(tp)) / (0.015 * mean absolute deviation)")
+                break
+        rep.instance(rid, "cci|value|{'period': 3}", {"definition": "(tp - sma)/(0.015*mean|tp - sma|)"})
+    except Undecided as e:
+        rep.undecided_item(f"cci: {e}")
+    # fast stochastic %K and its %D = sma(%K)
+    try:
+        out = run_ind(repo, "stochf", fastk_period=3, fastd_period=2)
+        memo = {}
+        k, d = elems(out["k"], memo), elems(out["d"], memo)
+        for i in range(2, N):
+            hh, ll = mx(H(i - j) for j in range(3)), mn(L(i - j) for j in range(3))
+            want = (C(i) - ll) / (hh - ll) * R.const(100)
+            if not eq(k[i], want):
+                rep.violation(rid, "stochf|k", f"stochf %K element {i}: {str(k[i])[:160]} differs from 100 (c - LL)/(HH - LL)")
+                break
+        for i in range(3, N):
+            if k[i] is None or k[i - 1] is None or d[i] is None:
+                continue
+            if not generic(d[i]).approx_same((generic(k[i]) + generic(k[i - 1])) / R.const(2)):
+                rep.violation(rid, "stochf|d", f"stochf %D element {i} is not the 2-period simple average of %K")
+                break
+        rep.instance(rid, "stochf|{'fastk_period': 3, 'fastd_period': 2}", {"definition": "%K = 100 (c-LL)/(HH-LL); %D = sma(%K)"})
+    except Undecided as e:
+        rep.undecided_item(f"stochf: {e}")
+    # keltner: middle = ema(close), bands = middle +- multiplier * atr  (siblings: the repository's own ema / atr series)
+    try:
+        out = run_ind(repo, "keltner", period=3, multiplier=2)
+        memo = {}
+        up, mid, lo = elems(out["upperband"], memo), elems(out["middleband"], memo), elems(out["lowerband"], memo)
+        e_ = elems(run_ind(repo, "ema", period=3)["value"], {})
+        a_ = elems(run_ind(repo, "atr", period=3)["value"], {})
+        for i in range(3, N):
+            if any(x[i] is None for x in (up, mid, lo, e_, a_)):
+                continue
+            if not eq(mid[i], generic(e_[i])):
+                rep.violation(rid, "keltner|middleband", f"keltner middle band element {i} is not ema(close, period)")
+                break
+            if not eq(up[i] - mid[i], generic(a_[i]) * R.const(2)) or not eq(mid[i] - lo[i], generic(a_[i]) * R.const(2)):
+                rep.violation(rid, "keltner|bands", f"keltner bands at element {i} are not middle +- multiplier * atr: up-mid = {str(up[i] - mid[i])[:120]}")
+                break
+        rep.instance(rid, "keltner|{'period': 3}", {"definition": "ema +- multiplier*atr"})
+    except Undecided as e:
+        rep.undecided_item(f"keltner: {e}")
+    # dema / tema: compositions of one EMA recurrence
+    for nm, combo in (("dema", lambda e1, e2, e3: e1 * R.const(2) - e2), ("tema", lambda e1, e2, e3: e1 * R.const(3) - e2 * R.const(3) + e3)):
+        try:
+            g = elems(run_ind(repo, nm, period=3)["value"], {})
+            a = R.const(F(2, 4))
+            x = [C(i) for i in range(N)]
+
+            def ema_(xs):
+                o = [xs[0]]
+                for i in range(1, len(xs)):
+                    o.append(a * xs[i] + (ONE - a) * o[-1])
+                return o
+            e1 = ema_(x)
+            e2 = ema_(e1)
+            e3 = ema_(e2)
+            # seed-independent form: with b = 1-a and z the one-step delay,
+            #   dema: (1-bz)^2 g = (2a(1-bz) - a^2) x        tema: (1-bz)^3 g = (3a(1-bz)^2 - 3a^2(1-bz) + a^3) x
+            b = ONE - a
+
+            def delay_poly(coefs, series, i):
+                return sum((R.const(cf) * series[i - k] if not isinstance(cf, R) else cf * series[i - k] for k, cf in enumerate(coefs)), R.const(0))
+            if nm == "dema":
+                lhs_c = [ONE, -b * R.const(2), b * b]
+                rhs_c = [a * R.const(2) - a * a, -a * b * R.const(2)]
+            else:
+                lhs_c = [ONE, -b * R.const(3), b * b * R.const(3), -b * b * b]
+                rhs_c = [a * R.const(3) - a * a * R.const(3) + a * a * a, -a * b * R.const(6) + a * a * b * R.const(3), a * b * b * R.const(3)]
+            bad = None
+            for i in range(len(lhs_c) - 1, N):
+                if any(g[i - k] is None for k in range(len(lhs_c))):
+                    continue
+                if not generic(delay_poly(lhs_c, [generic(v) if v is not None else None for v in g], i)).approx_same(delay_poly(rhs_c, x, i)):
+                    bad = i
+                    break
+            if bad is not None:
+                rep.violation(rid, f"{nm}|value", f"{nm}(period=3) element {bad} does not satisfy the {nm} filter recurrence ({'2*ema - ema(ema)' if nm == 'dema' else '3*ema - 3*ema(ema) + ema(ema(ema))'}, alpha=2/(period+1))")
+            ok = all(g[i] is not None and eq(g[i], combo(e1[i], e2[i], e3[i])) for i in range(N))
+            rep.instance(rid, f"{nm}|{{'period': 3}}", {"definition": "2*ema - ema(ema)" if nm == "dema" else "3*ema - 3*ema(ema) + ema(ema(ema))", "matches_first_value_seed": ok})
+        except Undecided as e:
+            rep.undecided_item(f"{nm}: {e}")
+    # macd: signal line is the EMA recurrence of the macd line, hist = macd - signal
+    try:
+        out = run_ind(repo, "macd", fast_period=2, slow_period=3, signal_period=2)
+        memo = {}
+        m_, s_, h_ = elems(out["macd"], memo), elems(out["signal"], memo), elems(out["hist"], memo)
+        a = R.const(F(2, 3))
+        for i in range(2, N):
+            if not eq(s_[i], a * generic(m_[i]) + (ONE - a) * generic(s_[i - 1])):
+                rep.violation(rid, "macd|signal", f"macd signal element {i} is not the EMA recurrence of the macd line (alpha 2/(signal_period+1))")
+                break
+            if not eq(h_[i], generic(m_[i]) - generic(s_[i])):
+                rep.violation(rid, "macd|hist", f"macd histogram element {i} is not macd - signal")
+                break
+        # the macd line itself: difference of two EMA recurrences (alpha 2/3 and 1/2) - checked through its own 2nd order recurrence being awkward, we compare with first-value seeding
+        x = [C(i) for i in range(N)]
+
+        def ema_a(al):
+            o = [x[0]]
+            for i in range(1, N):
+                o.append(al * x[i] + (ONE - al) * o[-1])
+            return o
+        ef, es = ema_a(R.const(F(2, 3))), ema_a(R.const(F(2, 4)))
+        okm = all(eq(m_[i], ef[i] - es[i]) for i in range(N))
+        if not okm:
+            rep.undecided_item("macd line: not the first-value-seeded ema_fast - ema_slow (different seeding?)")
+        rep.instance(rid, "macd|{'fast': 2, 'slow': 3, 'signal': 2}", {"macd_line_first_value_seed": okm})
+    except Undecided as e:
+        rep.undecided_item(f"macd: {e}")
     # on-balance volume: step
     try:
         out = run_ind(repo, "obv")
@@ -390,7 +512,7 @@ def run(repo: Repo, rep, tier: str):
     rep.guarded(check_recurrences, repo, rep)
     rep.undecided_item("numeric ranges of bounded oscillators, band ordering, non-negativity and price homogeneity (value properties; follow from the decided formulas only by further arithmetic reasoning)")
     rep.undecided_item("value agreement of recursive smoothers after seed decay (the recurrence step is decided)")
-    rep.undecided_item("indicators outside the reference table (keltner, stochastic slow, cci, adx/di/dm, macd line, dema/tema)")
+    rep.undecided_item("indicators outside the reference table (slow stochastic smoothing, adx/di/dm, trima, kama, ...)")
 
 
 CLAIM = {
@@ -399,7 +521,7 @@ CLAIM = {
     "text": "Static. The expression DAG of every output element is extracted by interpreting /repo's indicator source on symbolic candles "
             "and converted to an exact rational function (comparisons / max / min / abs / sqrt as canonical opaque atoms). Trailing-window "
             "indicators (sma, wma, var, stddev, bollinger bands, donchian, willr, mom, roc, mfi, obv step, typ/med/avg/wcl price, trange, "
-            "midpoint, midprice) must equal their textbook definitions as symbolic identities; ema / smma / wilders / atr must satisfy their "
+            "midpoint, midprice, cci, stochf %K/%D) must equal their textbook definitions as symbolic identities; keltner must be the repository's ema +- multiplier * atr; dema / tema must satisfy their seed-independent filter recurrences and macd signal/hist their defining relations; ema / smma / wilders / atr must satisfy their "
             "recurrence step and rsi Wilder's definition; ma() must return for each of its ~30 matypes exactly the series the selected "
             "moving average returns. Identities hold for all input values at the analysed length/period. Not decided: ranges, orderings, "
             "homogeneity, seed-decay agreement, indicators outside the table.",
